@@ -374,12 +374,12 @@ func genCmd(r *gen.Rand, w *World, extra bool) Cmd {
 		}
 		return Cmd{K: "pruneig", ID: d.MaxIx + uint64(r.Range(1, 5))}
 	case k < 98:
-		// a partition view for a database that is not in the catalogue makes a later node join panic (expandDBPtView
-		// dereferences data.Databases[db]); see NOTES - not generated
-		if len(dbs) > 0 {
+		// the server creates the partition view BEFORE the database (handlers_process.go createDatabase); a view without
+		// its database makes a later node join panic (finding C16-ptview-without-database-panics-on-node-join)
+		if len(dbs) > 0 && r.Chance(6, 7) {
 			return Cmd{K: "cptv", DB: gen.Pick(r, dbs)}
 		}
-		return Cmd{K: "cptv", DB: 0}
+		return Cmd{K: "cptv", DB: r.Range(1, 3)}
 	default:
 		if len(d.PtView) > 0 && len(d.PtView[0].Pts) > 0 {
 			v := gen.Pick(r, d.PtView)
@@ -413,8 +413,12 @@ func genCase(r *gen.Rand, idx int, extra bool) *Case {
 	}
 	for i := 0; i < n; i++ {
 		c := genCmd(r, w, extra)
-		if w.exec(c) == 0 && c.X == "rename" {
+		res := w.exec(c)
+		if res == 0 && c.X == "rename" {
 			break // the stale map key makes every later lookup of that policy diverge: one finding per case
+		}
+		if res == 2 {
+			break // the state machine panicked: the process is gone
 		}
 	}
 	return finish(w)
@@ -439,7 +443,9 @@ func i64(v int64) *int64 { return &v }
 func scripted(name string, ptper int, cmds []Cmd) *Case {
 	w := newWorld(name, true, ptper, true)
 	for _, c := range cmds {
-		w.exec(c)
+		if w.exec(c) == 2 {
+			break
+		}
 	}
 	return finish(w)
 }
@@ -474,6 +480,11 @@ func corpus() []*Case {
 			{K: "markrp", DB: 1, RP: 1},
 			{K: "droprp", DB: 1, RP: 1},
 			{K: "csg", DB: 1, RP: 0, TS: t10},
+		}),
+		scripted("witness-ptview-without-database", 1, []Cmd{
+			{K: "cnode", H: 1, T: 1},
+			{K: "cptv", DB: 2}, // what the server does first when asked to create db2
+			{K: "cnode", H: 2, T: 2},
 		}),
 		scripted("boundaries-and-failures", 2, []Cmd{
 			{K: "cdb", DB: 1, HasRP: true, RP: 1, D: i64(0), SGD: i64(Hour)}, // store not ready
@@ -531,7 +542,9 @@ func main() {
 		}
 		w := newWorld("replay", in.Modelled, in.PtPer, in.SClean)
 		for _, c := range in.Cmds {
-			w.exec(c)
+			if w.exec(c) == 2 {
+				break
+			}
 		}
 		_ = enc.Encode(finish(w))
 		return
@@ -567,7 +580,9 @@ func main() {
 			}
 			w := newWorld("corpus:"+e.Name(), in.Modelled, in.PtPer, in.SClean)
 			for _, c := range in.Cmds {
-				w.exec(c)
+				if w.exec(c) == 2 {
+					break
+				}
 			}
 			_ = enc.Encode(finish(w))
 		}
